@@ -1,6 +1,6 @@
 import VlsModel.Model.Tracker
 /-
-Helper lemmas for C13: structure of `maybeFinish`, `validateBlock`, `addBlock`, `removeBlock`.
+Helper lemmas for C13: structure of `maybeFinish`, `validateBlock`, `doAddBlock`, `doRemoveBlock`.
 -/
 namespace VlsModel.Tracker
 open VlsModel.Monitor VlsModel.Gen.Chain
@@ -80,28 +80,28 @@ theorem proofOk_true {trusted : List Nat} {p : Proof} (h : proofOk trusted p = t
   simp only [Bool.and_eq_true, decide_eq_true_eq] at h
   exact ⟨h.1, by omega⟩
 
-/-- the tracker after a successful `addBlock` -/
+/-- the tracker after a successful `doAddBlock` -/
 def Tracker.added (t : Tracker) (hdr : Header) (p : Proof) (ls : List (Nat × Listener)) : Tracker :=
   { t.undecode with
     listeners := ls, ldec := if p.ptype == .external then false else t.ldec,
     headers := t.tip :: t.headers.take (maxReorgSize - 1),
     tip := ⟨hdr, p.fh⟩, height := t.height + 1 }
 
-/-- the tracker after a successful `removeBlock` -/
+/-- the tracker after a successful `doRemoveBlock` -/
 def Tracker.removed (t : Tracker) (p : Proof) (prev : Headers) (ls : List (Nat × Listener)) : Tracker :=
   { t.undecode with
     listeners := ls, ldec := if p.ptype == .external then false else t.ldec,
     headers := t.headers.drop 1, tip := prev, height := t.height - 1 }
 
-/-- Complete case analysis of `addBlock`. -/
-theorem addBlock_cases (t : Tracker) (hdr : Header) (p : Proof) :
-    (addBlock t hdr p).2 = .panic ∨
-    (∃ k, addBlock t hdr p = (t.undecode, .err k) ∧ (p.ptype ≠ .external → t.decoding = none)) ∨
-    (∃ ls, addBlock t hdr p = (t.added hdr p ls, .ok) ∧
+/-- Complete case analysis of `doAddBlock`. -/
+theorem doAddBlock_cases (t : Tracker) (hdr : Header) (p : Proof) :
+    (doAddBlock t hdr p).2 = .panic ∨
+    (∃ k, doAddBlock t hdr p = (t.undecode, .err k) ∧ (p.ptype ≠ .external → t.decoding = none)) ∨
+    (∃ ls, doAddBlock t hdr p = (t.added hdr p ls, .ok) ∧
         (p.ptype ≠ .external → t.decoding = none) ∧
         mapListeners (·.add p.txs) t.listeners = some ls ∧
         validateBlock t.undecode t.height t.tip ⟨hdr, p.fh⟩ p = none) := by
-  unfold addBlock
+  unfold doAddBlock
   split
   · left; rfl
   · rename_i t1 e hm
@@ -124,16 +124,16 @@ theorem addBlock_cases (t : Tracker) (hdr : Header) (p : Proof) :
             right; right
             exact ⟨ls, rfl, hd, hl, hv⟩
 
-/-- Complete case analysis of `removeBlock.removeCore`. -/
+/-- Complete case analysis of `doRemoveBlock.removeCore`. -/
 theorem removeCore_cases (t : Tracker) (p : Proof) (prev : Headers) :
-    (removeBlock.removeCore t p prev).2 = .panic ∨
-    (∃ k, removeBlock.removeCore t p prev = (t.undecode, .err k) ∧
+    (doRemoveBlock.removeCore t p prev).2 = .panic ∨
+    (∃ k, doRemoveBlock.removeCore t p prev = (t.undecode, .err k) ∧
         (p.ptype ≠ .external → t.decoding = none)) ∨
-    (∃ ls, removeBlock.removeCore t p prev = (t.removed p prev ls, .ok) ∧
+    (∃ ls, doRemoveBlock.removeCore t p prev = (t.removed p prev ls, .ok) ∧
         (p.ptype ≠ .external → t.decoding = none) ∧
         mapListeners (·.remove p.txs) t.listeners = some ls ∧ t.height ≠ 0 ∧
         validateBlock t.undecode (t.height - 1) prev t.tip p = none) := by
-  unfold removeBlock.removeCore
+  unfold doRemoveBlock.removeCore
   split
   · left; rfl
   · rename_i t1 e hm
@@ -156,29 +156,29 @@ theorem removeCore_cases (t : Tracker) (p : Proof) (prev : Headers) :
             right; right
             exact ⟨ls, rfl, hd, hl, hh, hv⟩
 
-/-- Complete case analysis of `removeBlock`.  A rejection before `removeCore` returns `t` itself
+/-- Complete case analysis of `doRemoveBlock`.  A rejection before `removeCore` returns `t` itself
 (the decode state is not even taken); we record only what all rejections share. -/
-theorem removeBlock_cases (t : Tracker) (p : Proof) (prev : Headers) :
-    (removeBlock t p prev).2 = .panic ∨
-    (∃ k, (removeBlock t p prev).2 = .err k ∧
-        ((removeBlock t p prev).1 = t ∨ (removeBlock t p prev).1 = t.undecode) ∧
-        (p.ptype ≠ .external → (removeBlock t p prev).1 = t)) ∨
-    (∃ ls, removeBlock t p prev = (t.removed p prev ls, .ok) ∧
+theorem doRemoveBlock_cases (t : Tracker) (p : Proof) (prev : Headers) :
+    (doRemoveBlock t p prev).2 = .panic ∨
+    (∃ k, (doRemoveBlock t p prev).2 = .err k ∧
+        ((doRemoveBlock t p prev).1 = t ∨ (doRemoveBlock t p prev).1 = t.undecode) ∧
+        (p.ptype ≠ .external → (doRemoveBlock t p prev).1 = t)) ∨
+    (∃ ls, doRemoveBlock t p prev = (t.removed p prev ls, .ok) ∧
         (p.ptype ≠ .external → t.decoding = none) ∧
         mapListeners (·.remove p.txs) t.listeners = some ls ∧ t.height ≠ 0 ∧
         validateBlock t.undecode (t.height - 1) prev t.tip p = none ∧
         (∀ h0 rest, t.headers = h0 :: rest → prev = h0) ∧
         (t.headers = [] → t.allowDeep = true)) := by
   have core := removeCore_cases t p prev
-  have coreErr : ∀ k, removeBlock.removeCore t p prev = (t.undecode, .err k) →
+  have coreErr : ∀ k, doRemoveBlock.removeCore t p prev = (t.undecode, .err k) →
       (p.ptype ≠ .external → t.decoding = none) →
-      ∃ k, (removeBlock.removeCore t p prev).2 = .err k ∧
-        ((removeBlock.removeCore t p prev).1 = t ∨ (removeBlock.removeCore t p prev).1 = t.undecode) ∧
-        (p.ptype ≠ .external → (removeBlock.removeCore t p prev).1 = t) := by
+      ∃ k, (doRemoveBlock.removeCore t p prev).2 = .err k ∧
+        ((doRemoveBlock.removeCore t p prev).1 = t ∨ (doRemoveBlock.removeCore t p prev).1 = t.undecode) ∧
+        (p.ptype ≠ .external → (doRemoveBlock.removeCore t p prev).1 = t) := by
     intro k hk hd
     refine ⟨k, by rw [hk], Or.inr (by rw [hk]), fun hp => ?_⟩
     rw [hk]; exact undecode_of_none (hd hp)
-  unfold removeBlock
+  unfold doRemoveBlock
   split
   · right; left; exact ⟨_, rfl, Or.inl rfl, fun _ => rfl⟩
   · rename_i hdeep
@@ -212,5 +212,106 @@ theorem removeBlock_cases (t : Tracker) (p : Proof) (prev : Headers) :
         · intro _
           simp only [hh, List.isEmpty_nil, Bool.true_and, Bool.not_eq_true', Bool.not_eq_false] at hdeep
           simpa using hdeep
+
+/-! ### the public wrappers (fix b36e377: a refused streamed request aborts the stream) -/
+
+/-- the tracker after a refused request: if a stream was in progress, the tracker's decode state and
+the monitors' per-block decode states are dropped; otherwise nothing changes -/
+def Tracker.aborted (t : Tracker) : Tracker :=
+  { t with decoding := none, ldec := if t.decoding.isSome then false else t.ldec }
+
+theorem aborted_of_none {t : Tracker} (h : t.decoding = none) : t.aborted = t := by
+  cases t; simp_all [Tracker.aborted]
+
+theorem abortIfStreamed_of_ok (t : Tracker) (r : Tracker × Out) (h : r.2 = .ok) :
+    abortIfStreamed t r = r := by
+  unfold abortIfStreamed; rw [h]
+
+theorem abortIfStreamed_of_panic (t : Tracker) (r : Tracker × Out) (h : r.2 = .panic) :
+    abortIfStreamed t r = r := by
+  unfold abortIfStreamed; rw [h]
+
+theorem abortIfStreamed_err (t t' : Tracker) (k : ErrKind) (h : t' = t ∨ t' = t.undecode) :
+    abortIfStreamed t (t', .err k) = (t.aborted, .err k) := by
+  unfold abortIfStreamed Tracker.aborted
+  cases hd : t.decoding with
+  | none =>
+    rcases h with rfl | rfl
+    · cases t'; simp_all
+    · cases t; simp_all [Tracker.undecode]
+  | some d =>
+    rcases h with rfl | rfl
+    · simp [hd]
+    · simp [Tracker.undecode]
+
+/-- Complete case analysis of `addBlock`. -/
+theorem addBlock_cases (t : Tracker) (hdr : Header) (p : Proof) :
+    (addBlock t hdr p).2 = .panic ∨
+    (∃ k, addBlock t hdr p = (t.aborted, .err k) ∧ (p.ptype ≠ .external → t.decoding = none)) ∨
+    (∃ ls, addBlock t hdr p = (t.added hdr p ls, .ok) ∧
+        (p.ptype ≠ .external → t.decoding = none) ∧
+        mapListeners (·.add p.txs) t.listeners = some ls ∧
+        validateBlock t.undecode t.height t.tip ⟨hdr, p.fh⟩ p = none) := by
+  unfold addBlock
+  rcases doAddBlock_cases t hdr p with c | ⟨k, hk, hd⟩ | ⟨ls, hk, rest⟩
+  · left; rw [abortIfStreamed_of_panic _ _ c]; exact c
+  · right; left; exact ⟨k, by rw [hk]; exact abortIfStreamed_err t _ k (Or.inr rfl), hd⟩
+  · right; right; exact ⟨ls, by rw [hk]; exact abortIfStreamed_of_ok _ _ rfl, rest⟩
+
+/-- Complete case analysis of `removeBlock`. -/
+theorem removeBlock_cases (t : Tracker) (p : Proof) (prev : Headers) :
+    (removeBlock t p prev).2 = .panic ∨
+    (∃ k, removeBlock t p prev = (t.aborted, .err k)) ∨
+    (∃ ls, removeBlock t p prev = (t.removed p prev ls, .ok) ∧
+        (p.ptype ≠ .external → t.decoding = none) ∧
+        mapListeners (·.remove p.txs) t.listeners = some ls ∧ t.height ≠ 0 ∧
+        validateBlock t.undecode (t.height - 1) prev t.tip p = none ∧
+        (∀ h0 rest, t.headers = h0 :: rest → prev = h0) ∧
+        (t.headers = [] → t.allowDeep = true)) := by
+  unfold removeBlock
+  rcases doRemoveBlock_cases t p prev with c | ⟨k, hk, h1, _⟩ | ⟨ls, hk, rest⟩
+  · left; rw [abortIfStreamed_of_panic _ _ c]; exact c
+  · right; left
+    refine ⟨k, ?_⟩
+    have e : doRemoveBlock t p prev = ((doRemoveBlock t p prev).1, .err k) := by
+      rw [← hk]
+    rw [e]; exact abortIfStreamed_err t _ k h1
+  · right; right; exact ⟨ls, by rw [hk]; exact abortIfStreamed_of_ok _ _ rfl, rest⟩
+
+/-- no stream in progress ⇒ the monitors hold no decode state -/
+def Clean (t : Tracker) : Prop := t.decoding = none → t.ldec = false
+
+/-- what the block chunks do to the monitors: `on_block_start` sets `saw_block` -/
+def sawAll (ls : List (Nat × Listener)) : List (Nat × Listener) :=
+  ls.map fun (k, l) => (k, { l with st := { l.st with sawBlock := true } })
+
+theorem sawAll_id (ls : List (Nat × Listener)) (h : ∀ e ∈ ls, e.2.st.sawBlock = true) :
+    sawAll ls = ls := by
+  induction ls with
+  | nil => rfl
+  | cons e rest ih =>
+    obtain ⟨k, l⟩ := e
+    have h1 : l.st.sawBlock = true := h (k, l) (by simp)
+    have h2 := ih (fun e he => h e (by simp [he]))
+    simp only [sawAll, List.map_cons] at h2 ⊢
+    rw [h2]
+    congr 1
+    cases l with | mk st slot => cases st; simp_all
+
+/-- a successful `block_chunk`: no stream was in progress, no monitor held a decode state -/
+theorem blockChunk_ok {t : Tracker} {d a : Nat} (h : (blockChunk t d a).2 = .ok) :
+    t.decoding = none ∧ (t.listeners.isEmpty = true ∨ t.ldec = false) ∧
+    (blockChunk t d a).1 =
+      { t with decoding := some d, ldec := !t.listeners.isEmpty, listeners := sawAll t.listeners } := by
+  unfold blockChunk at h ⊢
+  by_cases h1 : t.decoding.isSome = true
+  · simp [h1] at h
+  · by_cases h2 : d ≠ a
+    · simp [h1, h2] at h
+    · by_cases h3 : (!t.listeners.isEmpty && t.ldec) = true
+      · simp [h1, h2, h3] at h
+      · simp only [h1, h2, h3, if_false]
+        refine ⟨by simpa using h1, ?_, rfl⟩
+        cases hl : t.listeners.isEmpty <;> cases hd : t.ldec <;> simp_all
 
 end VlsModel.Tracker
